@@ -41,6 +41,8 @@ def extra(tier, seed, rng, res, broken):
     """the last references of a span released on several threads at the same moment: reported closed exactly once"""
     from checks import stressgen
     stressgen.stress_phase('closeonce', tier, res, broken, seed)
+    # … and references taken concurrently on one span: none may be lost (the span would close under a live handle)
+    stressgen.stress_phase('cloneshared', tier, res, broken, seed)
 
 def classify(stream, case, out):
     s = reggen.stats(case, out)
